@@ -5,7 +5,8 @@ import sys, os, json, subprocess, shutil, re, concurrent.futures as cf
 PY = '/venv/bin/python'
 
 def sh(cmd, cwd, timeout=1500):
-    p = subprocess.run(cmd, cwd=cwd, shell=True, capture_output=True, text=True, timeout=timeout)
+    p = subprocess.run(cmd, cwd=cwd, shell=True, capture_output=True, text=True, timeout=timeout,
+                       env=dict(os.environ, PYTHONPATH=cwd, PYTHONDONTWRITEBYTECODE='1'))
     return p.returncode, (p.stdout + p.stderr)
 
 BASE = os.environ.get('SEED_BASE', '/tmp/seed')
@@ -19,6 +20,10 @@ def confirm(pid):
         diff = '%s/%s_%s.diff' % (wt, pid, mut)
         demo = '%s_%s_demo.py' % (pid, mut)
         meta = '%s/%s_%s_meta.json' % (wt, pid, mut)
+        if os.environ.get('SEED_LAYOUT') == 'dir':      # round 3: <wt>/out/<mut>/{patch.diff,demo.py,meta.json}
+            diff = '%s/out/%s/patch.diff' % (wt, mut)
+            demo = 'out/%s/demo.py' % mut
+            meta = '%s/out/%s/meta.json' % (wt, mut)
         if not (os.path.exists(diff) and os.path.exists(os.path.join(wt, demo))):
             res.append((pid, mut, 'missing files')); continue
         dest = '/verif/seeded/%s-%s' % (pid, mut)
